@@ -1,4 +1,5 @@
 import SimVerif.Model.Assign
+import SimVerif.Model.Nms
 /-
 Layer-L model of the four trackers' association / lifecycle logic (src/trackers/**: predict
 prologues, `TrackerAPI`, `EpochDb`, `SortAttributes` / `VisualAttributes` bookkeeping).
@@ -14,6 +15,17 @@ open SimVerif.AssignX
 structure Det where
   tok : Nat                 -- identifies the detection (its observed box) in the history
   custom : Option Int
+  quality : Rat := 1        -- VisualSORT: feature quality
+  feat : Nat := 0           -- VisualSORT: token of the appearance feature, 0 = none
+  collectOk : Bool := true  -- VisualSORT: the detection meets the *collect* thresholds (Layer G decision)
+deriving Repr, BEq, DecidableEq
+
+/-- one stored observation of a VisualSORT track: quality, feature token (0 = none), whether it
+still carries its box (only the newest does) -/
+structure GE where
+  quality : Rat
+  feat : Nat
+  box : Bool
 deriving Repr, BEq, DecidableEq
 
 structure Trk where
@@ -24,6 +36,10 @@ structure Trk where
   custom : Option Int
   obsH : List Nat           -- bounded history of observed boxes (tokens), oldest first
   visual : Bool             -- voting type of the last attachment (`true` = Visual)
+  vcount : Nat := 0         -- VisualSORT: `visual_features_collected_count`
+  gallery : List GE := []   -- VisualSORT: observations of class 0, newest first
+  featH : List Nat := []    -- VisualSORT: bounded history of observed features (raw, 0 = none)
+  vt : Option Bool := none  -- VisualSORT: `voting_type` attribute (`none` until the first merge)
 deriving Repr, BEq, DecidableEq
 
 structure Cfg where
@@ -31,7 +47,15 @@ structure Cfg where
   histLen : Nat             -- > 0
   batchIds : Bool           -- batch trackers draw an id for every candidate
   thr : Int                 -- quantised positional threshold
+  visual : Bool := false    -- VisualSORT kinds
+  maxObs : Nat := 1         -- `visual_max_observations` (≥ 1, asserted by the options builder)
+  minVotes : Nat := 1       -- `visual_min_votes`
 deriving Repr
+
+/-- a SORT-kind track / detection (no appearance data) -/
+def Trk.simple (id scene lastUpd len : Nat) (custom : Option Int) (obsH : List Nat) : Trk :=
+  { id := id, scene := scene, lastUpd := lastUpd, len := len, custom := custom, obsH := obsH, visual := false }
+def Det.simple (tok : Nat) (custom : Option Int) : Det := { tok := tok, custom := custom }
 
 structure St where
   epochs : List (Nat × Nat) := []
@@ -82,6 +106,19 @@ def pushBounded (h : List Nat) (x : Nat) (n : Nat) : List Nat :=
   let h' := h ++ [x]
   if n > 0 && h'.length > n then h'.drop 1 else h'
 
+/-- `VisualMetric::optimize` on the observations of class 0: keep the old observations that carry a
+feature, without their boxes, stably sorted by decreasing quality; if that already fills the
+gallery drop the last (lowest quality); append the new observation and swap it to the front -/
+def galleryUpdate (maxObs : Nat) (old : List GE) (new : GE) : List GE :=
+  let kept := (old.filter (fun g => g.feat != 0)).map (fun g => { g with box := false })
+  let sorted := kept.mergeSort (fun a b => decide (b.quality ≤ a.quality))
+  let cut := if sorted.length ≥ maxObs then sorted.dropLast else sorted
+  match cut with
+  | [] => [new]
+  | a0 :: rest => new :: rest ++ [a0]
+
+def featCount (g : List GE) : Nat := (g.filter (fun e => e.feat != 0)).length
+
 /-- one distance entry of the call: detection index, track id, quantised positional weight -/
 structure Entry where
   det : Nat
@@ -105,13 +142,21 @@ def applyPick (cfg : Cfg) (scene e : Nat) (st : St) (d : Det) (p : Pick) : Optio
     match findLive st1 tid with
     | none => none
     | some t =>
+      let g' := if cfg.visual then
+          galleryUpdate cfg.maxObs t.gallery { quality := d.quality, feat := if d.collectOk then d.feat else 0, box := true }
+        else t.gallery
       let t' : Trk := { t with lastUpd := e, len := t.len + 1, custom := d.custom,
-                               obsH := pushBounded t.obsH d.tok cfg.histLen, visual := vis }
+                               obsH := pushBounded t.obsH d.tok cfg.histLen, visual := vis,
+                               gallery := g', vcount := if cfg.visual then featCount g' else t.vcount,
+                               vt := if cfg.visual then some vis else t.vt,
+                               featH := if cfg.visual then pushBounded t.featH d.feat cfg.histLen else t.featH }
       some ({ st1 with live := st1.live.map (fun x => if x.id == tid then t' else x) },
             { id := tid, epoch := e, scene := t'.scene, len := t'.len, custom := t'.custom, tok := d.tok, visual := vis })
   | .fresh id =>
     let st2 := if cfg.batchIds then st1 else { st1 with nextId := st1.nextId + 1 }
-    let t' : Trk := { id := id, scene := scene, lastUpd := e, len := 1, custom := d.custom, obsH := [d.tok], visual := false }
+    let g' : List GE := if cfg.visual then [{ quality := d.quality, feat := d.feat, box := true }] else []
+    let t' : Trk := { id := id, scene := scene, lastUpd := e, len := 1, custom := d.custom, obsH := [d.tok], visual := false,
+                      gallery := g', vcount := featCount g', featH := if cfg.visual then [d.feat] else [] }
     some ({ st2 with live := st2.live ++ [t'] },
           { id := id, epoch := e, scene := scene, len := 1, custom := d.custom, tok := d.tok, visual := false })
 
@@ -162,6 +207,69 @@ def validChoice (cfg : Cfg) (st : St) (scene e : Nat) (n : Nat) (table : List En
    let asg := qs.map (fun q => (conts.getD (q - 1) none))
    objective es cfg.thr qs asg == bestOf es cfg.thr)
 
+/-! ### VisualSORT: appearance stage first, positional fallback -/
+
+/-- a distance entry of a VisualSORT call: positional weight and / or feature distance -/
+structure VEntry where
+  det : Nat
+  tid : Nat
+  w : Option Int
+  f : Option Rat
+deriving Repr, BEq
+
+/-- query ids of the appearance stage are kept apart from track ids -/
+def QBASE : Nat := 1000000000000
+
+def featStream (table : List VEntry) : List Voting.Dist :=
+  table.map (fun x => { q := QBASE + x.det, w := x.tid, d := x.f })
+
+/-- `VisualVoting`: BestFit over the feature distances (`max_distance = f32::MAX`, `min_votes`);
+each detection with at least one surviving claim is decided here — by its heaviest claim: the
+track if it was awarded to this detection, otherwise (the claim lost) a new track -/
+def visualDecided (cfg : Cfg) (table : List VEntry) : List (Nat × Option Nat) :=
+  let all := Voting.bestfitAll Nms.F32_MAX cfg.minVotes (featStream table)
+  let qs := Voting.firsts (all.map (fun e => e.1.q))
+  qs.map (fun q => match all.find? (fun e => e.1.q == q) with
+    | some (e, real) => (q - QBASE, if real then some e.w else none)
+    | none => (q - QBASE, none))
+
+/-- no two surviving claims have the same weight (then the appearance stage has a unique outcome) -/
+def visualUnique (cfg : Cfg) (table : List VEntry) : Bool :=
+  let cs := Voting.cands Nms.F32_MAX cfg.minVotes (featStream table)
+  (cs.map (·.weight)).eraseDups.length == cs.length
+
+/-- the distances left for the positional stage: detections not decided by appearance, tracks not
+taken (or contested) by appearance, entries that carry a positional weight -/
+def positionalRest (decided : List (Nat × Option Nat)) (table : List VEntry) : List Entry :=
+  let excluded := decided.filterMap (·.2)
+  table.filterMap (fun x =>
+    if decided.any (fun p => p.1 == x.det) || excluded.contains x.tid then none
+    else x.w.map (fun w => { det := x.det, tid := x.tid, w := w }))
+
+/-- validity of a VisualSORT choice: the appearance-decided detections carry exactly the decided
+pick (with voting type Visual for an award), every other detection is resolved by a valid
+positional choice over the remaining distances with voting type Positional -/
+def validVisualChoice (cfg : Cfg) (st : St) (scene e n : Nat) (table : List VEntry) (picks : List Pick) : Bool :=
+  let decided := visualDecided cfg table
+  picks.length == n &&
+  table.all (fun x => entryOk cfg st scene e { det := x.det, tid := x.tid, w := 0 }) &&
+  ((List.range n).zip picks).all (fun (i, p) =>
+    match decided.find? (fun d => d.1 == i) with
+    | some (_, some tid) => p == .cont tid true
+    | some (_, none) => (match p with | .fresh _ => true | _ => false)
+    | none => (match p with | .cont _ vis => !vis | .fresh _ => true)) &&
+  validChoice cfg st scene e n (positionalRest decided table)
+    (((List.range n).zip picks).map (fun (i, p) => if decided.any (fun d => d.1 == i) then .fresh 0 else p))
+
+/-- the per-scene part of a VisualSORT `predict` -/
+def predictSceneV (cfg : Cfg) (st : St) (scene : Nat) (dets : List Det) (table : List VEntry) (picks : List Pick)
+    (lo hi : Nat) : Option (St × List Rec) :=
+  let e := epochOf st scene + 1
+  let st2 := setEpoch st scene e
+  if validVisualChoice cfg st2 scene e dets.length table picks && freshIdsOk cfg st2 lo hi picks then
+    applyPicks cfg scene e dets picks st2
+  else none
+
 /-- the per-scene part of `predict`: advance the scene's epoch, validate the choice, apply it -/
 def predictScene (cfg : Cfg) (st : St) (scene : Nat) (dets : List Det) (table : List Entry) (picks : List Pick)
     (lo hi : Nat) : Option (St × List Rec) :=
@@ -196,6 +304,30 @@ def predictBatch (cfg : Cfg) (st : St) (scenes : List (Nat × List Det × List E
   let lo := st1.nextId
   let hi := lo + (scenes.map (fun s => s.2.1.length)).foldl (· + ·) 0
   (batchScenes cfg lo hi scenes st1).map (fun r => ({ r.1 with nextId := hi }, r.2))
+
+/-- VisualSORT simple tracker -/
+def predictV (cfg : Cfg) (st : St) (scene : Nat) (dets : List Det) (table : List VEntry) (picks : List Pick) :
+    Option (St × List Rec) :=
+  predictSceneV cfg (awStep cfg st) scene dets table picks 0 0
+
+def batchScenesV (cfg : Cfg) (lo hi : Nat) : List (Nat × List Det × List VEntry × List Pick) → St →
+    Option (St × List (Nat × List Rec))
+  | [], st => some (st, [])
+  | (scene, dets, table, picks) :: rest, st =>
+    match predictSceneV cfg st scene dets table picks lo hi with
+    | none => none
+    | some (st', recs) =>
+      match batchScenesV cfg lo hi rest st' with
+      | none => none
+      | some (st'', out) => some (st'', (scene, recs) :: out)
+
+/-- VisualSORT batch tracker -/
+def predictBatchV (cfg : Cfg) (st : St) (scenes : List (Nat × List Det × List VEntry × List Pick)) :
+    Option (St × List (Nat × List Rec)) :=
+  let st1 := awStep cfg st
+  let lo := st1.nextId
+  let hi := lo + (scenes.map (fun s => s.2.1.length)).foldl (· + ·) 0
+  (batchScenesV cfg lo hi scenes st1).map (fun r => ({ r.1 with nextId := hi }, r.2))
 
 /-- `skip_epochs_for_scene`: advance the scene's epoch, then `auto_waste()` -/
 def skip (cfg : Cfg) (st : St) (scene n : Nat) : St :=
